@@ -93,6 +93,12 @@ def diff_rows(it):
     m = next(iter(it.mems.values()))
     if m.get("set") == m.get("reset"):
         rows = [r_ for r_ in rows if r_[1] == r_[2]]  # one atom: rows with different values cannot occur
+    # a set / reset that is a compile-time constant only ever takes that truth value
+    from gen_scalar import constant_value
+    for pos, key in ((1, "set"), (2, "reset")):
+        v = constant_value(it.decls, m[key]) if m.get(key) is not None else None
+        if v is not None:
+            rows = [r_ for r_ in rows if r_[pos] == (v > 0)]
     return rows
 
 
@@ -172,7 +178,7 @@ def latch_history(it, rows, rng):
     for (bit, s_, r_, e1, e2, nb), o in zip(trials, outs or []):
         if o is None:
             continue
-        pairs = [(int(a), int(b)) for a, b in re.findall(r"\((-?\d+),\s*(-?\d+)\)", o.replace("%Z", ""))]
+        pairs = [(int(a), int(b)) for a, b in re.findall(r"\(\s*(-?\d+)\s*,\s*(-?\d+)\s*\)", o.replace("%Z", ""))]
         if any(a != b for a, b in pairs):
             names = [o_[0] for o_ in meta["outputs"]][:len(pairs)]
             return {"history": ([{"inputs": e1, "ticks": T, "purpose": "turn the latch on (set active, reset not)"}] if bit else [])
